@@ -1,3 +1,5 @@
 import alloc_common, aligned_common
 A = alloc_common.pairs(); B = aligned_common.pairs()
 PAIRS = [A[k] for k in ("count_size_overflow", "calloc", "mallocn", "reallocn", "recalloc")] + [v for k, v in B.items() if k.startswith("generic_") or k == "aligned_entry"]
+import posix_common
+PAIRS += posix_common.pairs()
